@@ -74,7 +74,9 @@ OnFilter ==
 \* C15: never more than the limit; at the limit the OLDEST session makes room
 OnTrack ==
   /\ Is("track") /\ up /\ pend >= 0 /\ conn[pend].st = "accepted"
-  /\ Ev.id = nextId
+  \* the property does not say how session ids are chosen: any id is accepted that cannot be confused with a session
+  \* whose close message may still arrive (a tracked one, or an evicted one that has not reported its end yet)
+  /\ Ev.id \notin ({tracker[i] : i \in DOMAIN tracker} \cup evp)
   /\ LET full == Len(tracker) >= M
          ev == IF full THEN Head(tracker) ELSE -1
          t2 == (IF full THEN Tail(tracker) ELSE tracker) \o <<Ev.id>>
